@@ -63,6 +63,18 @@ def module_src(m, other, docs):
   private :: hidden_sub
 """ if m == "ma" else ""
     only = "fa_only" if m == "ma" else "fb_only"
+    # mb overrides the structure constructor: a generic interface named like the type (needs a kind qualifier)
+    ctor_iface = """  interface shape_t
+    !! overridden constructor
+    module procedure make_shape
+  end interface shape_t
+""" if m == "mb" else ""
+    ctor_impl = """  function make_shape() result(s)
+    !! makes one
+    type(shape_t) :: s
+    s%area = 0.0
+  end function make_shape
+""" if m == "mb" else ""
     hidden = """  subroutine hidden_sub()
     !! a private one
   end subroutine hidden_sub
@@ -76,7 +88,7 @@ def module_src(m, other, docs):
     procedure, nopass :: draw => helper
       !! draws
   end type shape_t
-{extra_a}contains
+{ctor_iface}{extra_a}contains
   subroutine helper()
 {d(m + '/helper')}  end subroutine helper
   integer function {only}(n)
@@ -84,7 +96,7 @@ def module_src(m, other, docs):
     integer, intent(in) :: n
     {only} = n
   end function {only}
-{hidden}end module {m}
+{ctor_impl}{hidden}end module {m}
 """
 
 
@@ -113,7 +125,7 @@ ENTITIES = {
     "ma": "module", "mb": "module", "ma/helper": "sub", "mb/helper": "sub", "ma/fa_only": "fun", "mb/fb_only": "fun",
     "ma/shape_t": "type", "mb/shape_t": "type", "ma/counter": "var", "mb/counter": "var", "ma/shape_t/area": "comp",
     "mb/shape_t/area": "comp", "ma/shape_t/draw": "bound", "mb/shape_t/draw": "bound", "ma/cb_iface": "absint",
-    "ma/gen_a": "generic", "main_prog": "program", "ext_sub": "sub", "bdat": "block", "nl_cfg": "namelist",
+    "ma/gen_a": "generic", "mb/shape_t@ctor": "generic", "mb/make_shape": "fun", "main_prog": "program", "ext_sub": "sub", "bdat": "block", "nl_cfg": "namelist",
     "ma.f90": "file", "mb.f90": "file", "main.f90": "file", "build.sh": "file",
 }
 CONTEXTS = ["ma", "mb", "ma/counter", "ma/shape_t", "ma/shape_t/area", "ma/helper", "mb/helper", "mb/shape_t",
@@ -168,9 +180,10 @@ def gen_reference(ch, ctx):
             if local is None:
                 return f"[[{name}]]", [], flags | {"variable-from-outside"}
             return f"[[{name}{q}]]", local, flags
+        ctor = ["mb/shape_t@ctor"] if (name == "shape_t" and not q) else []
         if local is not None:
-            return f"[[{name}{q}]]", local, flags
-        return f"[[{name}{q}]]", [f"ma/{name}", f"mb/{name}"], flags | {"undefined-choice"}
+            return f"[[{name}{q}]]", local + (ctor if local[0].startswith("mb/") else []), flags
+        return f"[[{name}{q}]]", [f"ma/{name}", f"mb/{name}"] + ctor, flags | {"undefined-choice"}
     if form == "child":
         parent = ch.choice(["ma", "mb"])
         child = ch.choice(["helper", "shape_t", "counter"] + (["fa_only", "cb_iface", "gen_a"] if parent == "ma" else ["fb_only"]))
@@ -186,9 +199,19 @@ def gen_reference(ch, ctx):
             if ch.bool(1, 2):
                 cq2 = "(variable)" if comp == "area" else "(bound)"
             local = scoped("shape_t")
+            if local is None or local[0].startswith("mb/"):
+                tq = "(type)"       # mb's type shares its name with its constructor interface: unqualified is undefined
             if local is not None:
                 return f"[[shape_t{tq}:{comp}{cq2}]]", [f"{local[0]}/{comp}"], flags | {"type-child", "multi-level"}
             return f"[[shape_t{tq}:{comp}{cq2}]]", ["ma/shape_t/" + comp, "mb/shape_t/" + comp], flags | {"type-child", "undefined-choice"}
+        if key == "mb/shape_t":
+            # the type and its overridden constructor share the name: the item qualifier decides
+            which = ch.choice(["type", "interface", None])
+            if which == "interface":
+                return f"[[{parent}{pq}:{child}(interface)]]", ["mb/shape_t@ctor"], flags | {"constructor-qualifier"}
+            if which is None:
+                return f"[[{parent}{pq}:{child}]]", [key, "mb/shape_t@ctor"], flags | {"undefined-choice"}
+            return f"[[{parent}{pq}:{child}(type)]]", [key], flags | {"constructor-qualifier"}
         return f"[[{parent}{pq}:{child}{cq}]]", [key], flags
     if form == "absent":
         name = ch.choice(["no_such_thing", "missing_proc", "ghost_t"])
@@ -253,6 +276,11 @@ def find_entity(project, key):
                 cur = e
                 for nm in parts[1:]:
                     nxt = None
+                    if nm.endswith("@ctor"):
+                        cur = next((i for i in cur.interfaces if str(i.name).lower() == nm[:-5]), None)
+                        if cur is None:
+                            return None
+                        continue
                     for c in cur.children:
                         if hasattr(c, "name") and str(c.name).lower() == nm:
                             nxt = c
